@@ -2,19 +2,31 @@ import NmlVerif.Model.Include
 import NmlVerif.DrvCommon
 open Lean NmlVerif.Include Drv
 
-def parseComp (j : Json) : Comp := match strList j with | [a, b, c] => ⟨a, b, c⟩ | _ => ⟨"", "", ""⟩
+/-- a component travels as `[list, kind, id, payload]`, kind = "noid" (class without an id attribute),
+    "none" (id is None) or "id" -/
+def parseComp (j : Json) : Comp :=
+  match strList j with
+  | [l, "noid", _, pl] => ⟨l, .absent, pl⟩
+  | [l, "none", _, pl] => ⟨l, .unset, pl⟩
+  | [l, "id", i, pl] => ⟨l, .val i, pl⟩
+  | _ => ⟨"", .absent, "?"⟩
 def parseHrefs (j : Json) (k : String) : List (List String) := (getArr j k).toList.map strList
 def parseFile (j : Json) : Path × File :=
   (strList (getObj j "path"), ⟨parseHrefs j "hrefs", (getArr j "comps").toList.map parseComp⟩)
 
 def mkFS (l : List (Path × File)) : FS := fun p => (l.find? (fun x => x.1 == p)).map (·.2)
 
-def compJ (c : Comp) : Json := Json.arr #[c.list, c.id, c.payload]
+def compJ (c : Comp) : Json :=
+  match c.id with
+  | .absent => Json.arr #[c.list, "noid", "", c.payload]
+  | .unset => Json.arr #[c.list, "none", "", c.payload]
+  | .val i => Json.arr #[c.list, "id", i, c.payload]
+def pathsJ (l : List Path) : Json := Json.arr (l.map (fun p => Json.arr (p.map Json.str).toArray)).toArray
 def resJ : Res → Json
   | .outOfFuel => Json.mkObj [("res", "outOfFuel")]
   | .missing => Json.mkObj [("res", "missing")]
   | .badExt => Json.mkObj [("res", "badExt")]
-  | .ok al doc => Json.mkObj [("res", "ok"), ("al", Json.arr (al.map (fun p => Json.arr (p.map Json.str).toArray)).toArray),
+  | .ok al log doc => Json.mkObj [("res", "ok"), ("al", pathsJ al), ("log", pathsJ log),
       ("doc", Json.arr (doc.map compJ).toArray)]
 
 def handle (j : Json) : Json :=
@@ -22,13 +34,15 @@ def handle (j : Json) : Json :=
   let fs := mkFS files
   let cwd := strList (getObj j "cwd")
   let fuel := getNat j "fuel"
-  let old := getStr j "algo" == "old"
-  match j.getObjVal? "entry_file" with
-  | .ok p =>
-    let p := strList p
-    if old then resJ (visitOld fs cwd fuel p []) else resJ (readFile fs cwd fuel p)
-  | _ =>
+  let sh := getBool j "sh"
+  match getStr j "mode" with
+  | "file" => resJ (readFile sh fs cwd fuel (strList (getObj j "entry_file")))
+  | "internal" => resJ (readInternal sh fs cwd fuel (strList (getObj j "entry_file")))
+  | "noinc" => resJ (readNoInc sh fs cwd fuel (strList (getObj j "entry_file")))
+  | "old" => resJ (visitOld fs cwd fuel (strList (getObj j "entry_file")) [])
+  | "string" =>
     let base := strList (getObj j "base")
-    resJ (readString fs cwd base fuel (parseHrefs j "hrefs") ((getArr j "comps").toList.map parseComp))
+    resJ (readString sh fs cwd base fuel (parseHrefs j "hrefs") ((getArr j "comps").toList.map parseComp))
+  | m => Json.mkObj [("res", "bad-mode:" ++ m)]
 
 def main : IO Unit := loop handle
